@@ -291,7 +291,11 @@ func genNode(t *rapid.T, depthLeft int, budget *int, maxKids int, allowBig bool)
 	if k == 0 {
 		return nd
 	}
-	nd.Grid = rapid.IntRange(2, 3).Draw(t, "grid")
+	lo := 2
+	if k == 1 {
+		lo = 1 // a single child may sit concentrically
+	}
+	nd.Grid = rapid.IntRange(lo, 3).Draw(t, "grid")
 	nd.Cells = distinctCells(t, nd.Grid, k, "cells")
 	for i := 0; i < len(nd.Cells); i++ {
 		nd.Kids = append(nd.Kids, genNode(t, depthLeft-1, budget, maxKids, allowBig))
@@ -340,7 +344,9 @@ func genNest(t *rapid.T, maxNodes, maxDepth int, allowBig bool) *Nest {
 		n.Roots = append(n.Roots, genNode(t, d, &budget, maxKids, allowBig))
 	}
 	n.Cells = n.Cells[:len(n.Roots)]
-	n.Rot = [3]float64{gen.F(t, -3.2, 3.2, "rz"), gen.F(t, -3.2, 3.2, "ry"), gen.F(t, -3.2, 3.2, "rx")}
+	if rapid.IntRange(0, 3).Draw(t, "aligned") != 0 {
+		n.Rot = [3]float64{gen.F(t, -3.2, 3.2, "rz"), gen.F(t, -3.2, 3.2, "ry"), gen.F(t, -3.2, 3.2, "rx")}
+	}
 	n.Scale = gen.LogF(t, 0.3, 30, "scale")
 	n.Shift = gen.Vec3(t, 5, "shift")
 	return n
@@ -673,7 +679,11 @@ func genNode2(t *rapid.T, depthLeft int, budget *int, maxKids int) *Node2 {
 	if k == 0 {
 		return nd
 	}
-	nd.Grid = rapid.IntRange(2, 3).Draw(t, "grid")
+	lo := 2
+	if k == 1 {
+		lo = 1
+	}
+	nd.Grid = rapid.IntRange(lo, 3).Draw(t, "grid")
 	nd.Cells = distinctCells2(t, nd.Grid, k, "cells")
 	for range nd.Cells {
 		nd.Kids = append(nd.Kids, genNode2(t, depthLeft-1, budget, maxKids))
@@ -720,7 +730,9 @@ func genNest2(t *rapid.T, maxNodes, maxDepth int) *Nest2 {
 		n.Roots = append(n.Roots, genNode2(t, d, &budget, maxKids))
 	}
 	n.Cells = n.Cells[:len(n.Roots)]
-	n.Rot = gen.F(t, -3.2, 3.2, "rot")
+	if rapid.IntRange(0, 3).Draw(t, "aligned") != 0 {
+		n.Rot = gen.F(t, -3.2, 3.2, "rot")
+	}
 	n.Scale = gen.LogF(t, 0.3, 30, "scale")
 	n.Shift = kit.V2{gen.F(t, -5, 5, "sx"), gen.F(t, -5, 5, "sy")}
 	return n
